@@ -70,7 +70,7 @@ let do_step stepf = function
 let () = run_protocol [
   "step", do_step step;
   "step_pinned", do_step step_pinned;
-  "construct", (function [c; ia; fa; ln; an; ang; op; bm] ->
+  "construct", (function c :: ia :: fa :: ln :: an :: ang :: op :: bm :: isc ->
      (match ints ia, gv fa with
       | [d; hs; sd; ll; tt; raw; hr; defb], [var; nug; rs] ->
         let bs = List.map bnd_of_row (gm bm) in
@@ -82,7 +82,13 @@ let () = run_protocol [
                   a_len = gv ln; a_anis = gv an; a_angles = gv ang; a_nugget = nug;
                   a_rescale = (if hr = 1 then Some rs else None); a_opts = gv op;
                   a_bvar = bv; a_blen = bl; a_bnug = bn; a_banis = ba; a_bopts = bo } in
-        show_res (if defb = 1 then ctor o (gcls c) a else construct o (gcls c) a)
+        (* optional 9th argument: integral_scale list (empty = None) *)
+        let ils = (match isc with [v] -> gv v | _ -> []) in
+        show_res (match ils, defb = 1 with
+                  | [], true -> ctor o (gcls c) a
+                  | [], false -> construct o (gcls c) a
+                  | _, true -> ctor_int o (gcls c) a ils
+                  | _, false -> construct_int o (gcls c) a ils)
       | _ -> failwith "construct args")
      | _ -> failwith "arity");
   "canon", (function c :: st -> let s = state_of st in show_res (construct o (gcls c) (args_of s)) | _ -> failwith "arity");
